@@ -72,6 +72,14 @@ def pick_vector(fdp, ver):
     return s
 
 
+KNOWN_KEYS = set(k for (_pid, k) in runner.load_known())
+
+
+def unlisted(fails):
+    """failures that are not listed known findings (those must not end a campaign: the search goes on behind them)"""
+    return [f for f in (fails or []) if not (f.get("key") and f["key"] in KNOWN_KEYS)]
+
+
 def fail(check, inp, fails):
     with open(OUT, "a") as f:
         f.write(json.dumps({"check": check, "input": inp, "failures": fails}, default=repr) + "\n")
@@ -90,7 +98,7 @@ def one_accept(data):
     else:
         s = pick_vector(fdp, ver)
     inp = {"ver": ver, "s": s}
-    fails = c04.check_accept(inp)
+    fails = unlisted(c04.check_accept(inp))
     if fails:
         fail("accept", inp, fails)
 
@@ -111,7 +119,7 @@ def one_text(data):
             planted.append([ver, v])
         chunks.append([" ", "", "\n", ".", "/", ":", "a", "3"][fdp.ConsumeIntInRange(0, 7)])
     inp = {"text": "".join(chunks), "planted": planted}
-    fails = c13.check_text(inp)
+    fails = unlisted(c13.check_text(inp))
     if fails:
         fail("text", inp, fails)
 
@@ -152,10 +160,10 @@ def one_dialogue(data):
     version = interact.VERSIONS[fdp.ConsumeIntInRange(0, len(interact.VERSIONS) - 1)]
     allm = fdp.ConsumeBool()
     inp = {"version": version, "all_metrics": allm, "no_colors": fdp.ConsumeBool(), "tty": fdp.ConsumeBool(), "answers": pick_answers(fdp, version, allm)}
-    fails = c16.check_dialogue(inp)
+    fails = unlisted(c16.check_dialogue(inp))
     if fails:
         fail("dialogue", inp, fails)
-    fails = c08.check_builder(inp)
+    fails = unlisted(c08.check_builder(inp))
     if fails:
         fail("builder", inp, fails)
 
@@ -178,7 +186,7 @@ def one_cli(data):
             vec = "--x"
         argv.append("--vector=" + vec)
     inp = {"argv": argv, "stdin": stdin}
-    fails = c17.check_cli(inp)
+    fails = unlisted(c17.check_cli(inp))
     if fails:
         fail("cli", inp, fails)
 
@@ -201,7 +209,7 @@ def one_rh(data):
         else:
             score = "5.0"
     inp = {"ver": ver, "text": score + ["/", "", "//", " /"][min(3, fdp.ConsumeIntInRange(0, 9))] + vec}
-    fails = c12.check_rh_parse(inp)
+    fails = unlisted(c12.check_rh_parse(inp))
     if fails:
         fail("rh_parse", inp, fails)
 
